@@ -591,6 +591,7 @@ def sibling_job(seed, n):
     collect()
     a = fresh_module()
     snap0 = tables_snapshot(a)
+    refs4 = {}
     import random
     for p, k in progs:
         labs = [it.name for it in p.items if it.kind == 'label']
@@ -650,7 +651,10 @@ def sibling_job(seed, n):
                 nm = cdefs[k % len(cdefs)]
                 probes += ['addi %s, %s, 1\n' % (nm, nm), 'addi x5, x5, %s\n' % nm]
             for probe in probes:
-                ref4 = progcheck.assemble(fresh_module(), probe, comp, labels={}, constants={})
+                if (probe, comp) not in refs4:     # (what a module that saw nothing makes of the probe: computed once per text)
+                    r4 = progcheck.assemble(fresh_module(), probe, comp, labels={}, constants={})
+                    refs4[(probe, comp)] = (r4[0], bytes(r4[1]) if r4[0] == 'ok' else None)
+                ref4 = refs4[(probe, comp)]
                 got4 = progcheck.assemble(a, probe, comp, labels={}, constants={})
                 if got4[0] != ref4[0] or (ref4[0] == 'ok' and got4[1] != ref4[1]):
                     res.fail('history:leftover_name', 'the program %r gives %s after a program that defined the name, on its own %s (compress=%s)\n--- earlier program\n%s' % (
